@@ -74,6 +74,7 @@ let dphase_of = function
   | _ -> None
 
 (* "ranges:src>dst=A/B" *)
+let barrier_timed_out = ref false
 let parse_phase (tok : string) : (string * int * int) * Route.mphase =
   match Stdlib.String.split_on_char '=' tok with
   | [k; v] ->
@@ -81,7 +82,7 @@ let parse_phase (tok : string) : (string * int * int) * Route.mphase =
      | [r; sd], [a; b] ->
        (match Stdlib.String.split_on_char '>' sd, sphase_of a, dphase_of b with
         | [s; d], Some sa, Some db ->
-          let blk = (a = "PRE_BLOCKING" || a = "PRE_SWITCH") in
+          let blk = (a = "PRE_BLOCKING" || a = "PRE_SWITCH") && not !barrier_timed_out in
           ((r, int_of_string s, int_of_string d), { Route.mp_src = sa; Route.mp_blk = blk; Route.mp_dst = db })
         | _ -> failwith ("phase with unknown state: " ^ tok))
      | _ -> failwith ("bad phase token " ^ tok))
@@ -126,6 +127,8 @@ let run_case (line : string) : string =
   let head = split_ws (Stdlib.String.sub line 0 bar) in
   let rest = Stdlib.String.sub line (bar + 1) (Stdlib.String.length line - bar - 1) in
   let lim = (match head with [_; l; _] -> nn (int_of_string l) | _ -> failwith "case head") in
+  (* replay-only pins x...: the case was run with a short max_blocking_time, so the BlockingHandle is gone although the state says PRE_SWITCH *)
+  barrier_timed_out := (match head with [_; _; pin] -> Stdlib.String.length pin > 0 && pin.[0] = 'x' | _ -> false);
   let (hist, ph_txt, obs_txt) =
     (match split_on_str " ## " rest with
      | [h; p; o] ->
